@@ -107,6 +107,7 @@ def run(ctx):
     jobs = [(k, s, {}, 'plain') for k in tgen.SCENARIOS if k != 'chain' for s in range(ctx.seed % 1000 * 10000, ctx.seed % 1000 * 10000 + n)]
     jobs += [('chain', s, {}, 'plain') for s in range(ctx.seed % 1000 * 10000, ctx.seed % 1000 * 10000 + nchain)]
     jobs += [('fuse', s, {}, 'plain') for s in range(ctx.seed % 1000 * 10000 + n, ctx.seed % 1000 * 10000 + n + (450 if quick else 5000))]     # fusion has the most variants
+    jobs += [('fuse', s, {'variant': 'extend_fused'}, 'plain') for s in range(ctx.seed % 1000 * 10000, ctx.seed % 1000 * 10000 + (300 if quick else 3000))]  # one fused space contains the other
     recs = tcheck.run_jobs(jobs)
     wf_jobs, wf_src = [], []
     for r in recs:
@@ -114,8 +115,8 @@ def run(ctx):
         ctx.count('status:%s:%s' % (r['kind'], r['status']))
         if r['status'] == 'crash':
             ctx.violation('operation crashed with a non-YastnError exception: %s' % r['detail'][:300], dict(kind=r['kind'], seed=r['seed'], detail=r['detail']))
-        if r['status'] in ('mismatch', 'error') and (r['describe'] or {}).get('op') == 'relabel_fused':
-            ctx.violation('%s case seed %d (hard-fused operands with equal sub-leg dimensions and different charges): %s' % (r['kind'], r['seed'], (r['detail'] or '')[:200]),
+        if r['status'] in ('mismatch', 'error') and (r['describe'] or {}).get('op') in ('relabel_fused', 'extend_fused'):
+            ctx.violation('%s case seed %d (hard-fused operands whose sub-leg sectors differ, op %s): %s' % (r['kind'], r['seed'], r['describe'].get('what'), (r['detail'] or '')[:200]),
                           dict(kind=r['kind'], seed=r['seed'], opts=r['opts'], detail=r['detail'], describe=r['describe']))
         if r['status'] == 'mismatch' and (r['detail'].startswith('charge') or 'not consistent' in r['detail']):
             ctx.violation('%s case seed %d: %s' % (r['kind'], r['seed'], r['detail']), dict(kind=r['kind'], seed=r['seed'], opts=r['opts'], detail=r['detail'], describe=r['describe']))
